@@ -52,8 +52,16 @@ if confirmed:
     open(os.path.join(dst, "patch.diff"), "w").write(o)
     rc, o = run(["git", "-C", "/repo", "apply", "--check", os.path.join(dst, "patch.diff")])
     res["applies_to_repo"] = rc == 0
+    # SEEDCHECK_IN_WORKTREE=1: /repo is in use (background sweeps): run our checks against the worktree instead - the real code is
+    # imported from it (PYTHONPATH) and the translators read it (VERIF_REPO); /repo is not touched
+    in_wt = os.environ.get("SEEDCHECK_IN_WORKTREE") == "1"
+    if in_wt:
+        os.environ["PYTHONPATH"] = wt
+        os.environ["VERIF_REPO"] = wt
+        res["checked_in"] = "worktree (PYTHONPATH / VERIF_REPO), /repo untouched"
     if rc == 0:
-        run(["git", "-C", "/repo", "apply", os.path.join(dst, "patch.diff")])
+        if not in_wt:
+            run(["git", "-C", "/repo", "apply", os.path.join(dst, "patch.diff")])
         try:
             checks = {}
             for pr in prop.split(","):
@@ -71,7 +79,10 @@ if confirmed:
                     shutil.copy(rp, os.path.join(dst, "replay-%s.json" % pr))
             res["our_checks"] = checks
         finally:
-            run(["git", "-C", "/repo", "checkout", "--", "."])
+            if not in_wt:
+                run(["git", "-C", "/repo", "checkout", "--", "."])
+            os.environ.pop("PYTHONPATH", None)
+            os.environ.pop("VERIF_REPO", None)
     meta = {"property": prop.split(",")[0], "also_run": prop.split(",")[1:], "source": "independent sub-agent given only the property text",
             "needs_to_manifest": "see notes.md", "confirmation": res}
     json.dump(meta, open(os.path.join(dst, "meta.json"), "w"), indent=1)
